@@ -13,23 +13,7 @@ COMMON_TRUST = [
     "the theorems are about the Lean Impl models; the C code is tied to them by sampled differential execution",
 ]
 
-# what each claimed property's check delivers, in my own words (kept current as the model grows)
-TEXT = {
-    "C14": dict(
-        text="(under construction) polynomial constant proved equal to the IEEE one; carquet_crc32/_update tied to "
-             "the bit-serial Spec by exhaustive-length correspondence",
-        level_note="Lean kernel; translator; harness; zlib as second oracle",
-        technique="Lean 4 proof over bit-serial CRC spec + table model, correspondence to C by differential execution"),
-}
-TEXT["C17"] = dict(
-    text="Proved for every schema tree (unbounded depth/size, all labelings): build_schema's recursive descent over the "
-         "depth-first element list yields exactly the leaves in order with def/rep levels of the format rule "
-         "(C17_traverse_eq_spec), column count, element accessors per column, lookup by name, and the builder for any "
-         "number of add_column calls; plus a linear work bound for arbitrary (malformed) element lists. The Impl model is "
-         "tied to build_schema/find_column/builder by differential execution on random well-formed and malformed trees. "
-         "Nested schemas reach the real reader only through in-memory metadata here (file-level tie via C06 reference files).",
-    level_note="Lean kernel; hand-written Impl.Schema tied by sampled correspondence; names NUL-free; logical type carried verbatim",
-    technique="Lean 4 proof by structural induction over schema trees + differential correspondence")
+# A property is claimed in MANIFEST as soon as some part supplies a `text` for it.
 NOT_APPLICABLE = {}
 HOOK_COMMITS = []
 
@@ -61,17 +45,19 @@ def merged():
             c["fidelity"].update(d.get("fidelity", {}))
             if d.get("rule"):
                 c["rules"].append(d["rule"])
+            for k in ("text", "level_note", "technique"):
+                if d.get(k):
+                    c.setdefault(k + "s", []).append(d[k])
             for k in ("variant", "timeout"):
                 if k in d:
                     c[k] = d[k]
     for pid, c in props.items():
         c["rule"] = " || ".join(c["rules"])
-        t = TEXT.get(pid, {})
-        c["text"] = t.get("text", "(under construction)")
-        c["level_note"] = t.get("level_note", "Lean kernel; translator; correspondence harness")
-        c["technique"] = t.get("technique", "Lean 4 proof over executable model + differential correspondence to the C code")
-    # only properties with a TEXT entry are claimed in MANIFEST
-    return {pid: c for pid, c in props.items() if pid in TEXT}
+        c["text"] = " || ".join(c.get("texts", []))
+        c["level_note"] = " || ".join(dict.fromkeys(c.get("level_notes", []))) or "Lean kernel; translator; correspondence harness"
+        c["technique"] = "; ".join(dict.fromkeys(c.get("techniques", []))) or \
+            "Lean 4 proof over executable model + differential correspondence to the C code"
+    return {pid: c for pid, c in props.items() if c.get("texts")}
 
 
 PROPS = merged()
